@@ -214,21 +214,12 @@ Proof.
 Qed.
 
 (* ------------------------------------------------------------------------------------------ *)
-(** * params_total: the unwraps of mutation_query.rs are unreachable, except for one class *)
+(** * params_total: the unwraps of mutation_query.rs are unreachable *)
 
 Lemma first_bad_panic : forall l, first_bad l = OPanic -> In OPanic l.
 Proof.
   induction l as [|o l IH]; cbn [first_bad]; [discriminate|].
   destruct o; intro H; [right; auto|discriminate|left; reflexivity].
-Qed.
-
-Lemma k1_intro : forall m r v,
-  In (r, v) (m_vals m) -> fkind_of (m_decl m) r = Some (FUser FJson Nullable) ->
-  (v = MNull \/ exists x, v = MVar x /\ lookup x (m_params m) = Some PNull) ->
-  k1_mutation m = true.
-Proof.
-  intros m r v Hin Hk Hv. unfold k1_mutation. apply existsb_exists. exists (r, v). split; [exact Hin|].
-  cbn [fst snd]. rewrite Hk. destruct Hv as [->|(x & -> & Hl)]; [reflexivity|]. rewrite Hl. reflexivity.
 Qed.
 
 (* a bound value that came through validate_one *)
@@ -241,7 +232,7 @@ Proof.
   exists p0, p'. auto.
 Qed.
 
-Theorem mutate_panics_only_in_k1 : forall m, mutate_outcome m = OPanic -> k1_mutation m = true.
+Theorem mutate_never_panics : forall m, mutate_outcome m <> OPanic.
 Proof.
   intros m H. unfold mutate_outcome in H.
   destruct (parse_mutation m) as [[l vs]|] eqn:Ep; [|discriminate].
@@ -249,68 +240,30 @@ Proof.
   unfold execute_mutation in H.
   destruct (validate_params vs (m_params m)) as [ps'|] eqn:Ev; [|discriminate].
   rewrite Forall_forall in Hl.
-  (* no entry's value is absent *)
+  (* no entry's value is absent: parameters.params.get(v).unwrap() cannot fail *)
   assert (Hval : forall r k fv, In (r, k, fv) l -> value_of fv ps' <> None).
   { intros r k fv Hin. destruct fv as [x|p]; [|cbn [value_of]; discriminate].
     destruct (Hl _ Hin) as [(_ & _ & Hx)|(i & t & n & He)]; [|inversion He].
     destruct (bound_value _ _ _ x _ Hnd Ev (Hx x eq_refl)) as (p0 & p' & _ & _ & Hb). rewrite Hb. discriminate. }
   match type of H with match first_bad ?sys with _ => _ end = _ => destruct (first_bad sys) eqn:Esys end.
-  - (* the scalar / Json fields *)
-    apply first_bad_panic in H. apply in_map_iff in H. destruct H as ([[r k] fv] & Hpan & Hin).
+  - apply first_bad_panic in H. apply in_map_iff in H. destruct H as ([[r k] fv] & Hpan & Hin).
     apply filter_In in Hin. destruct Hin as [Hin _]. cbn [fst snd] in Hpan.
     unfold assemble_field in Hpan.
-    destruct (value_of fv ps') as [p|] eqn:Evo; [|exfalso; exact (Hval _ _ _ Hin Evo)].
-    destruct (field_type k) eqn:Eft;
-      try (destruct p as [| |[|]| | |]; discriminate).
-    destruct (as_string p) as [s|] eqn:Eas; [destruct (s_json s); discriminate|].
-    destruct (Hl _ Hin) as [(Hk & (v & vs0 & vs1 & Hinv & Hpv) & Hx)|(i & t & n & He)].
-    + (* from the text: the field is a declared Json field *)
-      assert (Hkind : exists n, k = FUser FJson n).
-      { destruct k as [t n| |]; cbn [field_type] in Eft; [subst t; eauto|discriminate|discriminate]. }
-      destruct Hkind as (n & ->).
-      destruct fv as [x|p1].
-      * (* a variable: validated as a String variable *)
-        destruct (parse_value_spec _ _ _ _ _ Hpv (NoDup_nil _)) as (_ & _ & Hvar) || idtac.
-        assert (Hv : v = MVar x).
-        { destruct v; cbn [parse_value] in Hpv.
-          - destruct (vars_add vs0 x0 (variable_type (FUser FJson n))); inversion Hpv; reflexivity.
-          - destruct (field_nullable (FUser FJson n)); inversion Hpv.
-          - cbn [field_type] in Hpv. discriminate.
-          - cbn [field_type] in Hpv. discriminate.
-          - cbn [field_type] in Hpv. discriminate.
-          - cbn [field_type] in Hpv. destruct (s_json s); inversion Hpv. }
-        subst v.
-        destruct (bound_value _ _ _ x _ Hnd Ev (Hx x eq_refl)) as (p0 & p' & Hl0 & Hone & Hb).
-        rewrite Hb in Evo. inversion Evo; subst p'.
-        cbn [variable_type field_type field_is_system field_nullable] in Hone.
-        destruct n; cbn [validate_one] in Hone;
-          destruct p0; try discriminate; inversion Hone; subst p; cbn [as_string] in Eas; try discriminate.
-        eapply k1_intro; [exact Hinv|exact Hk|]. right. exists x. split; [reflexivity|exact Hl0].
-      * (* a literal *)
-        cbn [value_of] in Evo. inversion Evo; subst p1.
-        destruct v; cbn [parse_value field_type field_nullable] in Hpv.
-        -- destruct (vars_add vs0 x (variable_type (FUser FJson n))); inversion Hpv.
-        -- destruct n; inversion Hpv. eapply k1_intro; [exact Hinv|exact Hk|]. left. reflexivity.
-        -- discriminate.
-        -- discriminate.
-        -- discriminate.
-        -- destruct (s_json s); inversion Hpv; subst p; cbn [as_string] in Eas; discriminate.
-    + (* a filled default is a string *)
-      inversion He; subst. cbn [field_type] in Eft. subst t. cbn [value_of default_value] in Evo.
-      inversion Evo; subst p. cbn [as_string] in Eas. discriminate.
+    destruct (value_of fv ps') as [p|] eqn:Evo; [|exact (Hval _ _ _ Hin Evo)].
+    destruct (field_type k); try (destruct p as [| |[|]| | |]; discriminate).
+    destruct (as_string p) as [s|]; [destruct (s_json s); discriminate|discriminate].
   - discriminate.
-  - (* id / room_id: only an absent value could panic *)
-    clear H. apply first_bad_panic in Esys. apply in_map_iff in Esys. destruct Esys as ([[r k] fv] & Hpan & Hin).
+  - clear H. apply first_bad_panic in Esys. apply in_map_iff in Esys. destruct Esys as ([[r k] fv] & Hpan & Hin).
     assert (Hin' : In (r, k, fv) l).
     { apply in_app_or in Hin. destruct Hin as [Hin|Hin]; apply filter_In in Hin; tauto. }
     cbn [snd] in Hpan. unfold uid_field in Hpan.
-    destruct (value_of fv ps') as [p|] eqn:Evo; [|exfalso; exact (Hval _ _ _ Hin' Evo)].
+    destruct (value_of fv ps') as [p|] eqn:Evo; [|exact (Hval _ _ _ Hin' Evo)].
     destruct (as_string p) as [s|]; [|discriminate].
     destruct (negb (s_b64 s)); [discriminate|]. destruct (s_uid s); discriminate.
 Qed.
 
 (* ------------------------------------------------------------------------------------------ *)
-(** * a valid mutation executes (outside class 1) *)
+(** * a valid mutation executes *)
 
 Lemma fref_eqb_eq : forall a b, fref_eqb a b = true <-> a = b.
 Proof.
@@ -471,7 +424,6 @@ Proof. induction 1 as [|o l Ho Hl IH]; cbn [first_bad]; [reflexivity|]. subst. e
 (* the outcome of one entry of a valid mutation *)
 Lemma entry_outcome : forall m vs ps' r k fv v vs0 vs1,
   NoDup (map fst vs) -> validate_params vs (m_params m) = Some ps' ->
-  k1_mutation m = false ->
   In (r, v) (m_vals m) -> fkind_of (m_decl m) r = Some k ->
   value_fits k v (m_params m) = true ->
   parse_value k v vs0 = Some (fv, vs1) ->
@@ -479,10 +431,7 @@ Lemma entry_outcome : forall m vs ps' r k fv v vs0 vs1,
   (field_is_system k = true -> uid_field fv ps' = OOk) /\
   (field_is_system k = false -> assemble_field k fv ps' = OOk).
 Proof.
-  intros m vs ps' r k fv v vs0 vs1 Hnd Hv Hk1 Hin Hk Hfit Hp Hx.
-  assert (Hnok1 : forall (P : Prop), k = FUser FJson Nullable ->
-            (v = MNull \/ exists x, v = MVar x /\ lookup x (m_params m) = Some PNull) -> P).
-  { intros P -> Hc. rewrite (k1_intro m r v Hin Hk Hc) in Hk1. discriminate. }
+  intros m vs ps' r k fv v vs0 vs1 Hnd Hv Hin Hk Hfit Hp Hx.
   destruct v; cbn [parse_value value_fits] in Hp, Hfit.
   - (* variable *)
     destruct (vars_add vs0 x (variable_type k)); [|discriminate]. inversion Hp; subst fv vs1.
@@ -498,13 +447,11 @@ Proof.
       (split; intro Hs; try discriminate; try reflexivity);
       try (rewrite Hfit; reflexivity);
       try (rewrite Hb64; cbn [negb]; destruct (s_uid s); try discriminate; reflexivity).
-    all: try (apply (Hnok1 _ eq_refl); right; exists x; split; [reflexivity|exact Hl0]).
   - (* null *)
     apply andb_prop in Hfit. destruct Hfit as [Hn Hs]. rewrite Hn in Hp. inversion Hp; subst fv vs1.
     destruct k as [[| | | | |] [| |]| |]; cbn [field_nullable field_is_system negb] in Hn, Hs; try discriminate;
       unfold assemble_field; cbn [value_of field_type field_is_system];
       (split; intro Hsys; try discriminate; try reflexivity).
-    apply (Hnok1 _ eq_refl). left. reflexivity.
   - destruct k as [[| | | | |] n| |]; try discriminate. cbn [field_type] in Hp. inversion Hp; subst.
     split; intro; [discriminate|reflexivity].
   - destruct k as [[| | | | |] n| |]; try discriminate; cbn [field_type] in Hp.
@@ -530,9 +477,9 @@ Proof.
 Qed.
 
 Theorem valid_mutation_executes : forall m,
-  mutation_valid m = true -> k1_mutation m = false -> mutate_outcome m = OOk.
+  mutation_valid m = true -> mutate_outcome m = OOk.
 Proof.
-  intros m Hvalid Hk1. unfold mutation_valid in Hvalid.
+  intros m Hvalid. unfold mutation_valid in Hvalid.
   apply andb_prop in Hvalid. destruct Hvalid as [Hvalid Hreq].
   apply andb_prop in Hvalid. destruct Hvalid as [Hvalid Hcons].
   apply andb_prop in Hvalid. destruct Hvalid as [Hnodup Hfits].
@@ -572,7 +519,7 @@ Proof.
   { intros r k fv Hin. rewrite Forall_forall in Hl. destruct (Hl _ Hin) as [(Hk & (v & vs0 & vs1 & Hinv & Hpv) & Hx)|(i & t & n & He)].
     - rewrite <- (fkind_sys _ _ _ Hk).
       pose proof (Hfits _ Hinv) as Hf. cbn [fst snd] in Hf. rewrite Hk in Hf.
-      exact (entry_outcome m vs ps' r k fv v vs0 vs1 Hnd Hps Hk1 Hinv Hk Hf Hpv Hx).
+      exact (entry_outcome m vs ps' r k fv v vs0 vs1 Hnd Hps Hinv Hk Hf Hpv Hx).
     - inversion He; subst. cbn [is_sys_ref]. split; intro; [discriminate|].
       unfold assemble_field. cbn [value_of field_type]. destruct t; reflexivity. }
   rewrite first_bad_ok.
@@ -600,36 +547,36 @@ Proof.
   - destruct v; [specialize (Hv eq_refl); discriminate|auto].
 Qed.
 
-Lemma import_key_panics_iff : forall k pok, import_key k pok = OPanic <-> k = [].
+Theorem import_key_never_panics : forall k pok, import_key k pok <> OPanic.
 Proof.
-  intros k pok. destruct k as [|b k]; cbn [import_key]; [tauto|].
-  split; [|discriminate]. destruct (negb (N.eqb b key_type_ed25519)); [discriminate|].
-  destruct (negb (Nat.eqb (List.length (b :: k)) 33)); [discriminate|]. destruct pok; discriminate.
+  intros k pok. unfold import_key. destruct (negb (Nat.eqb (List.length k) 33)) eqn:E; [discriminate|].
+  destruct k as [|b k]; [cbn in E; discriminate|].
+  destruct (negb (N.eqb b key_type_ed25519)); [discriminate|]. destruct pok; discriminate.
 Qed.
 
-Lemma key_then_sig_panics : forall k pok sl sok, key_then_sig k pok sl sok = OPanic -> k = [].
+Lemma key_then_sig_never_panics : forall k pok sl sok, key_then_sig k pok sl sok <> OPanic.
 Proof.
   intros k pok sl sok H. unfold key_then_sig in H. destruct (import_key k pok) eqn:E.
   - unfold verify_sig in H. destruct (negb (N.eqb sl 64)); [discriminate|]. destruct sok; discriminate.
   - discriminate.
-  - apply import_key_panics_iff in E. exact E.
+  - exact (import_key_never_panics _ _ E).
 Qed.
 
-Theorem verify_row_panics_only_in_k2 : forall r, verify_row r = OPanic -> k2_row r = true.
+Theorem verify_row_never_panics : forall r, verify_row r <> OPanic.
 Proof.
-  intros r H. destruct r as [ee js k pok sl sok|el ll k pok sl sok|k pok sl sok]; cbn [verify_row k2_row] in *.
-  - destruct ee; [discriminate|]. destruct js; try discriminate; apply key_then_sig_panics in H; subst; reflexivity.
+  intros r H. destruct r as [ee js k pok sl sok|el ll k pok sl sok|k pok sl sok]; cbn [verify_row] in H.
+  - destruct ee; [discriminate|]. destruct js; try discriminate; exact (key_then_sig_never_panics _ _ _ _ H).
   - destruct (N.ltb max_edge_length (16 + el + ll + 16 + 8 + nlen k + sl)); [discriminate|].
     destruct (N.eqb el 0); [discriminate|]. destruct (N.eqb ll 0); [discriminate|].
-    apply key_then_sig_panics in H. subst. reflexivity.
-  - apply key_then_sig_panics in H. subst. reflexivity.
+    exact (key_then_sig_never_panics _ _ _ _ H).
+  - exact (key_then_sig_never_panics _ _ _ _ H).
 Qed.
 
 Lemma key_wellformed_imports : forall k pok, key_wellformed k pok = true -> import_key k pok = OOk.
 Proof.
   intros k pok H. unfold key_wellformed in H. apply andb_prop in H. destruct H as [H Hp].
   apply andb_prop in H. destruct H as [Hlen Hb]. destruct k as [|b k]; [discriminate|].
-  cbn [import_key]. unfold key_type_ed25519. rewrite Hb, Hlen, Hp. reflexivity.
+  unfold import_key. rewrite Hlen. cbn [negb]. unfold key_type_ed25519. rewrite Hb, Hp. reflexivity.
 Qed.
 
 Lemma existsb_false_forall : forall A (f : A -> bool) l, existsb f l = false -> forall x, In x l -> f x = false.
@@ -642,7 +589,7 @@ Lemma flag_nil : forall k b, flag k b = [] -> b = false.
 Proof. intros k [|]; cbn [flag]; [discriminate|reflexivity]. Qed.
 
 (* ------------------------------------------------------------------------------------------ *)
-(** * queries: the emitted statement skeleton is well formed (outside classes 3 and 4) *)
+(** * queries: the emitted statement skeleton is well formed *)
 
 Section cfield_induction.
   Variable P : cfield -> Prop.
@@ -713,20 +660,20 @@ Lemma emit_sub_eq : forall parent key arr nl subs,
    (if nl then [] else [TX; TL] ++ body ++ [TR])).
 Proof. reflexivity. Qed.
 
-Theorem emit_balanced : forall c, has_json_default c = false ->
-  forall parent, good (fst (emit parent c)) /\ good (snd (emit parent c)).
+Theorem emit_balanced : forall c parent, good (fst (emit parent c)) /\ good (snd (emit parent c)).
 Proof.
-  induction c as [s b d|d|key arr nl subs IH] using cfield_ind'; intros Hj parent.
+  induction c as [s b d|d|key arr nl subs IH] using cfield_ind'; intros parent.
   - destruct s, b, d; cbn [emit fst snd]; split; try apply good_nil;
       repeat first [apply good_x | apply good_al | apply good_nil
                    | apply (good_paren [TX] (good_x _ good_nil))
                    | apply (good_paren [TAl parent; TX] (good_al _ _ (good_x _ good_nil)))].
-  - cbn [has_json_default] in Hj. subst d. cbn [emit fst snd]. split; [apply good_x|]; apply good_nil.
-  - cbn [has_json_default] in Hj. rewrite emit_sub_eq. cbv zeta.
+  - destruct d; cbn [emit fst snd]; split;
+      repeat first [apply good_nil | apply good_x | apply (good_paren [TX] (good_x _ good_nil))].
+  - rewrite emit_sub_eq. cbv zeta.
     assert (HA : good (List.concat (map fst (map (emit key) subs))) /\ good (List.concat (map snd (map (emit key) subs)))).
     { split; apply good_concat; rewrite map_map; apply Forall_map;
         rewrite Forall_forall in IH |- *; intros x Hx;
-        apply (IH x Hx (existsb_false_forall _ _ _ Hj x Hx) key). }
+        apply (IH x Hx key). }
     destruct HA as [HA HB]. pose proof (good_sub_body parent key _ _ HA HB) as Hbody.
     cbn [fst snd]. split.
     + destruct arr.
@@ -751,56 +698,16 @@ Proof.
     + destruct nl; [apply good_nil|]. cbn [app]. apply good_x, good_paren. exact Hbody.
 Qed.
 
-Lemma forallb_concat : forall A (f : A -> bool) ls,
-  Forall (fun l => forallb f l = true) ls -> forallb f (List.concat ls) = true.
+Theorem entity_wf : forall c, wf_sql (emit_entity c) = true.
 Proof.
-  induction 1 as [|a ls Ha Hls IH]; cbn [List.concat]; [reflexivity|]. rewrite forallb_app, Ha, IH. reflexivity.
-Qed.
-
-Theorem emit_aliases_ok : forall c parent,
-  alias_ok parent = true -> forallb alias_ok (aliases_of c) = true ->
-  forallb tok_alias_ok (fst (emit parent c)) = true /\ forallb tok_alias_ok (snd (emit parent c)) = true.
-Proof.
-  induction c as [s b d|d|key arr nl subs IH] using cfield_ind'; intros parent Hp Hal.
-  - destruct s, b, d; cbn [emit fst snd forallb tok_alias_ok]; rewrite ?Hp; auto.
-  - destruct d; cbn [emit fst snd forallb tok_alias_ok]; auto.
-  - cbn [aliases_of forallb] in Hal. apply andb_prop in Hal. destruct Hal as [Hkey Hsubs].
-    rewrite emit_sub_eq. cbv zeta.
-    assert (HA : forallb tok_alias_ok (List.concat (map fst (map (emit key) subs))) = true
-                 /\ forallb tok_alias_ok (List.concat (map snd (map (emit key) subs))) = true).
-    { split; apply forallb_concat; rewrite map_map; apply Forall_map;
-        rewrite Forall_forall in IH |- *; intros x Hx; apply (IH x Hx key Hkey);
-        rewrite forallb_forall in Hsubs |- *; intros a Ha; apply Hsubs; apply in_flat_map; eauto. }
-    destruct HA as [HA HB].
-    assert (Hbody : forallb tok_alias_ok (sub_body parent key (List.concat (map fst (map (emit key) subs)))
-                                                   (List.concat (map snd (map (emit key) subs)))) = true).
-    { unfold sub_body. rewrite !forallb_app, HA, HB. cbn [forallb tok_alias_ok]. rewrite Hkey, Hp. reflexivity. }
-    cbn [fst snd]. split.
-    + destruct arr; rewrite !forallb_app, Hbody; reflexivity.
-    + destruct nl; [reflexivity|]. rewrite !forallb_app, Hbody. reflexivity.
-Qed.
-
-Theorem entity_wf : forall c,
-  k3_entity c = false -> k4_entity c = false -> wf_sql (emit_entity c) = true.
-Proof.
-  intros c H3 H4. unfold k3_entity in H3. apply Bool.negb_false_iff in H3.
-  cbn [forallb] in H3. apply andb_prop in H3. destruct H3 as [Ha Hsub].
-  unfold k4_entity in H4.
-  assert (HAB : (good (List.concat (map fst (map (emit (ce_alias c)) (ce_fields c))))
-                 /\ good (List.concat (map snd (map (emit (ce_alias c)) (ce_fields c)))))
-                /\ (forallb tok_alias_ok (List.concat (map fst (map (emit (ce_alias c)) (ce_fields c)))) = true
-                    /\ forallb tok_alias_ok (List.concat (map snd (map (emit (ce_alias c)) (ce_fields c)))) = true)).
-  { split; split.
-    1,2: apply good_concat; rewrite map_map; apply Forall_map; apply Forall_forall; intros x Hx;
-         apply (emit_balanced x (existsb_false_forall _ _ _ H4 x Hx) (ce_alias c)).
-    1,2: apply forallb_concat; rewrite map_map; apply Forall_map; apply Forall_forall; intros x Hx;
-         apply (emit_aliases_ok x (ce_alias c) Ha);
-         rewrite forallb_forall in Hsub |- *; intros a Hin; apply Hsub; apply in_flat_map; eauto. }
-  destruct HAB as [[HA HB] [HA' HB']].
-  unfold wf_sql. apply andb_true_intro. split.
-  - unfold balanced, emit_entity. cbv zeta.
-    set (A := List.concat (map fst (map (emit (ce_alias c)) (ce_fields c)))) in *.
-    set (B := List.concat (map snd (map (emit (ce_alias c)) (ce_fields c)))) in *.
+  intros c.
+  assert (HA : good (List.concat (map fst (map (emit (ce_alias c)) (ce_fields c))))).
+  { apply good_concat; rewrite map_map; apply Forall_map; apply Forall_forall; intros x Hx; apply (emit_balanced x (ce_alias c)). }
+  assert (HB : good (List.concat (map snd (map (emit (ce_alias c)) (ce_fields c))))).
+  { apply good_concat; rewrite map_map; apply Forall_map; apply Forall_forall; intros x Hx; apply (emit_balanced x (ce_alias c)). }
+  unfold wf_sql, balanced, emit_entity. cbv zeta.
+  set (A := List.concat (map fst (map (emit (ce_alias c)) (ce_fields c)))) in *.
+  set (B := List.concat (map snd (map (emit (ce_alias c)) (ce_fields c)))) in *.
     assert (Hg : good ([TSel; TX; TL; TX; TR; TX; TL] ++ [TSel; TX; TL] ++ A ++ [TR; TX; TAl (ce_alias c)]
                        ++ match ce_search c with Some _ => [TX; TAl (ce_alias c); TX] | None => [] end
                        ++ [TX; TAl (ce_alias c); TX] ++ B
@@ -818,8 +725,6 @@ Proof.
       apply good_app; [destruct (ce_search c); [apply good_x, good_al, good_x, good_nil|apply good_nil]|].
       apply good_x, good_al, good_x. apply good_app; [exact HB|]. destruct (ce_search c); [apply good_x|]; apply good_nil. }
     rewrite (Hg 0) by lia. reflexivity.
-  - unfold emit_entity. cbv zeta. rewrite !forallb_app, HA', HB'. cbn [forallb tok_alias_ok]. rewrite Ha.
-    destruct (ce_search c); cbn [forallb tok_alias_ok]; rewrite ?Ha; reflexivity.
 Qed.
 
 (* ------------------------------------------------------------------------------------------ *)
